@@ -3,17 +3,18 @@ from checks.common import *
 SPEC = {
     "translators": ["gen_fmtrules"],
     "bins": ["c15"],
-    "model_targets": ["Fmt/FmtCheck.vo", "Gen/FmtRules.vo"],
-    "proof_targets": ["Fmt/ProcessorProofs.vo", "Fmt/BubbleProofs.vo", "Fmt/FmtRulesProofs.vo"],
-    "generated_obligations": ["safe_stages_b Gen.FmtRules.stages = true", "forallb bubble_safe_b Gen.FmtRules.bubbles = true"],
+    "model_targets": ["Fmt/FmtCheck.vo", "Gen/FmtRules.vo", "Fmt/Pipeline.vo", "Fmt/Stages.vo"],
+    "proof_targets": ["Fmt/ProcessorProofs.vo", "Fmt/BubbleProofs.vo", "Fmt/FmtRulesProofs.vo", "Fmt/StagesProofs.vo", "Fmt/PipelineProofs.vo"],
+    "generated_obligations": ["safe_stages_b Gen.FmtRules.stages = true", "forallb bubble_safe_b Gen.FmtRules.bubbles = true", "ok_pipeline false Gen.FmtRules.pipeline = true"],
     "assumptions": [
         "proved for the Processor engine and the Bubble stage as modelled in Fmt/Processor.v and Fmt/Bubble.v (tied to the code by differential runs of the real engine through the cfg(yara_x_verif) hook fmt/src/verif_fmt.rs); rule conditions are arbitrary functions of the context that entail the conjuncts extracted by the translator",
-        "the five stages that are not rule-based (CommentProcessor, FormatHexPatterns, Align, AddIndentation, RemoveTrailingSpaces) are not modelled: token preservation across the whole pipeline, idempotence, the modified flag and termination are evaluated on the implementation only",
+        "the five stages that are not rule-based (CommentProcessor, FormatHexPatterns, Align, AddIndentation, RemoveTrailingSpaces) are modelled by hand as coded (Fmt/Stages.v, byte-exact tokens) and compared with the real stages token for token through the hook; the end-to-end theorem is about completed runs of the composition of the stage models in the order extracted from format_impl: that no stage panics, that Processor stages terminate and that Align never ends its stream early (an alignment block that expands to nothing makes the real iterator return None with input left) are hypotheses of the theorem, evaluated on the implementation only, as are idempotence and the front/back ends (tokenizer/CST -> tokens, write_to)",
+        "the end-to-end theorem reads comments as their sequence of lines without leading whitespace (the indentation of continuation lines), independent of how consecutive comments are grouped into tokens, and assumes the initial stream has no typed comment tokens (Tokens only produces raw Comment tokens)",
         "significant tokens are compared as (SyntaxKind, text) of the yara_x_parser token stream, comments modulo the indentation of continuation lines and the kind of line break inside them",
         "input tab sizes 1, 2, 4, 8 (a tab size of 0 is accepted by the API but makes the formatter's own tab-indented output unreadable to it; not counted)",
     ],
     "trusted_base": ["Gen/FmtCats.v, Gen/FmtRules.v: token categories, per-rule action and drop guards of every Processor stage, Bubble classes; regenerated from fmt/src/tokens/mod.rs, fmt/src/processor/mod.rs, fmt/src/lib.rs",
-                     "fmt/src/verif_fmt.rs (hook): data view of tokens, Processor and Bubble"],
+                     "fmt/src/verif_fmt.rs (hook): data view of tokens, Processor, Bubble and the five hand-written stages"],
 }
 
 RULE = ("CFmt: sources built from lexeme lists (imports, includes, 1-4 rules with tags, meta, text/hex/regexp patterns with modifiers, "
@@ -22,6 +23,9 @@ RULE = ("CFmt: sources built from lexeme lists (imports, includes, 1-4 rules wit
         "20% token-level mutations (delete/dup/swap/garbage/truncate), 10% byte-level mutations incl. invalid UTF-8; each under 2 rows of a "
         "pairwise covering array over the 7 boolean options x 6 indentations x 4 input tab sizes (+ random rows); checked per case: no "
         "panic/hang, significant tokens of output = input, modified flag = (output != input), second pass changes nothing, input and output compile alike (same error codes, or same verdicts and matches on 3 buffers). "
+        "CStage: the real CommentProcessor (5 tab sizes) / FormatHexPatterns / Align / AddIndentation (5 settings) / RemoveTrailingSpaces vs "
+        "Fmt/Stages.v token for token, on real token streams (raw, or after the real comment and whitespace-dropping stages) with control "
+        "tokens, spaces and line breaks sprinkled in (alignment blocks incl. unbalanced/nested/empty ones). "
         "CProc/CBubble/CCats: the real Processor/Bubble/Token::category (hook) vs the Coq model on real token streams of small sources with "
         "1-4 generated rules (conditions over token(+-1..3).is/eq/in_rule with and/or/not; drop/copy/insert incl. Begin/End) and 8 "
         "pass-through categories. Distinct = distinct source texts.")
@@ -35,10 +39,10 @@ def classify(case):
 
 def run_k(run, tier, seed, drv):
     if tier == "quick":
-        args = ["--seed", seed, "--n", 1200, "--n-proc", 500, "--opts", 2]
+        args = ["--seed", seed, "--n", 1200, "--n-proc", 400, "--n-stage", 400, "--opts", 2]
     else:
-        args = ["--seed", seed, "--n", 24000, "--n-proc", 6000, "--opts", 4]
-    info = standard_k(run, drv, "C15", "c15", args, "K_C15_processor_bubble_categories", classify, max_report=60)
+        args = ["--seed", seed, "--n", 24000, "--n-proc", 5000, "--n-stage", 6000, "--opts", 4]
+    info = standard_k(run, drv, "C15", "c15", args, "K_C15_processor_bubble_stages_categories", classify, max_report=60)
     info["rule"] = RULE
     return info
 
@@ -55,19 +59,23 @@ def replay(d, drv):
 
 
 MANIFEST = {
-    "level_text": ("Machine-checked proof (Coq) that the formatter's rule engine (Processor) and its Bubble stage, for every token "
-                   "stream, every pass-through category and every rule list / class pair satisfying a decidable safety predicate, "
-                   "yield exactly the significant tokens of their input in the same order (and a prefix of them if the engine "
-                   "panics); the rules and classes of all 21 Processor stages and 3 Bubble stages are regenerated from "
-                   "fmt/src/lib.rs on every run and shown to satisfy the predicate by computation, so a rule that drops a "
-                   "non-whitespace token, inserts a significant one or swaps breaks the proof. The engine models are compared "
-                   "with the real engine on real token streams. The whole-formatter clauses (token sequence in = out, "
-                   "idempotence, modified flag, no panic/hang) are evaluated on the implementation over generated sources x a "
-                   "pairwise covering array of the options."),
-    "level_note": ("Partial: idempotence, the modified flag, termination and the five non-rule-based stages (comments, hex re-flow, "
-                   "alignment, indentation, trailing spaces) are tested on the implementation, not proved. Idempotence fails on the "
-                   "unchanged tree in several comment-related shapes and on sources with syntax errors (known findings). Trusted: "
-                   "Coq kernel, translator gen_fmtrules.py, the harness, the hook fmt/src/verif_fmt.rs."),
+    "level_text": ("Machine-checked proof (Coq) that every stage of the formatter's pipeline preserves the significant content of every "
+                   "token stream, and END-TO-END that the composition of all stages - in the order and under the options extracted from "
+                   "format_impl on every run - does, for every option combination, tab size and indentation: the rule engine (Processor) "
+                   "for every rule list satisfying a decidable safety predicate that the 21 extracted rule lists are shown to satisfy by "
+                   "computation (a rule that drops a non-whitespace token, inserts a significant one or swaps breaks the proof), the 3 "
+                   "Bubble stages, and the five hand-written stages (CommentProcessor, FormatHexPatterns, Align, AddIndentation, "
+                   "RemoveTrailingSpaces) modelled as coded on byte-exact tokens; text tokens are preserved exactly, comments as their "
+                   "sequence of lines modulo leading whitespace. The `modified` flag is proved to be output != input (byte comparison, "
+                   "shape re-read from the source). Every stage model is compared with the real stage token for token on real token "
+                   "streams; the whole-formatter clauses (token sequence in = out, idempotence, modified flag, same compiled behaviour, "
+                   "no panic/hang) are evaluated on the implementation over generated sources x a pairwise covering array of the options."),
+    "level_note": ("Partial: the end-to-end theorem is about completed runs (hypotheses: no stage panics, Processor stages terminate, "
+                   "Align does not end its stream early - it can, when an alignment block expands to nothing; not observed through the "
+                   "Formatter); conditions of Processor rules are abstracted to the extracted conjuncts; the tokenizer/CST front end and "
+                   "write_to are outside the model; idempotence is tested, not proved, and fails on the unchanged tree in several "
+                   "comment-related shapes and on sources with syntax errors (known findings). Trusted: Coq kernel, translator "
+                   "gen_fmtrules.py, the harness, the hook fmt/src/verif_fmt.rs."),
     "technique": "Coq proof over an engine model with source-generated rule descriptions + differential correspondence (vm_compute) + property evaluation on the implementation",
     "design_ref": "DESIGN.md section 4, C15",
 }
